@@ -22,6 +22,8 @@ func propC14(c *Ctx) {
 	c.ruleC14ValidateFirst()
 	c.ruleC14Predicate()
 	c.ruleC14CycleGuard()
+	c.ruleC14NameIsPath()
+	c.ruleC14RecursionOnlyForCycles()
 	c.ruleNextDirectiveRecognised("C14-NEXT-DIRECTIVE") // an INCLUDE after an implicit Description must be seen (and so refused, read or reported)
 }
 
@@ -621,4 +623,138 @@ func (c *Ctx) rootPathParam(f *Fn, e ast.Expr, visiting map[types.Object]bool) b
 		}
 	}
 	return true
+}
+
+// ruleC14NameIsPath: an INCLUDE is resolved against filepath.Dir(<name of the including file>). That is "the directory
+// of the including file" only as long as a file's name IS the path it was read from.
+func (c *Ctx) ruleC14NameIsPath() {
+	r := c.R
+	r.Rule("C14-NAME-IS-PATH", "wherever the library makes a file object out of bytes read from a path (fs.NewFile(name, <result of os.ReadFile(p)>), reader.ReadWithName(p, name); reader.Read(p) does it by construction), the name is the very expression of the path: INCLUDE parameters are resolved against the directory part of that name", 2)
+	n := 0
+	for _, f := range c.libFns() {
+		pk := f.Pkg
+		ast.Inspect(f.Decl.Body, func(nd ast.Node) bool {
+			call, ok := nd.(*ast.CallExpr)
+			if !ok {
+				return true
+			}
+			cal := callee(pk, call)
+			if cal == nil || cal.Pkg() == nil {
+				return true
+			}
+			full := cal.Pkg().Path() + "." + cal.Name()
+			key := f.Name() + " | " + exprString(call)
+			switch {
+			case strings.HasSuffix(full, "jsight-schema-core/reader.ReadWithName") && len(call.Args) == 2:
+				n++
+				if c.stableExpr(f, call.Args[0], nil) == c.stableExpr(f, call.Args[1], nil) {
+					r.Ok("C14-NAME-IS-PATH", key, "name and path are the same expression", c.pos(call.Pos()))
+				} else {
+					r.Bad("C14-NAME-IS-PATH", key, "the file is read from "+exprString(call.Args[0])+" but named "+exprString(call.Args[1])+": its INCLUDEs are resolved against the directory of the name, which is not the directory the file lies in", c.pos(call.Pos()))
+				}
+			case strings.HasSuffix(full, "jsight-schema-core/reader.Read") && len(call.Args) == 1:
+				n++
+				r.Ok("C14-NAME-IS-PATH", key, "reader.Read names the file by the path it reads", c.pos(call.Pos()))
+			case strings.HasSuffix(full, "jsight-schema-core/fs.NewFile") && len(call.Args) == 2:
+				rc, _ := definingCall(f, call.Args[1])
+				if rc == nil {
+					return true // content not read from a path here (virtual file, placeholder)
+				}
+				rcal := callee(pk, rc)
+				if rcal == nil || !fsPrimitive(rcal) || len(rc.Args) < 1 {
+					return true
+				}
+				n++
+				if c.stableExpr(f, call.Args[0], nil) == c.stableExpr(f, rc.Args[0], nil) {
+					r.Ok("C14-NAME-IS-PATH", key, "named by the path its content was read from", c.pos(call.Pos()))
+				} else {
+					r.Bad("C14-NAME-IS-PATH", key, "the content is read from "+exprString(rc.Args[0])+" but the file is named "+exprString(call.Args[0])+": its INCLUDEs are resolved against another directory than the one the file lies in", c.pos(call.Pos()))
+				}
+			}
+			return true
+		})
+	}
+	if n < 2 {
+		r.Undecided("C14-NAME-IS-PATH", "sites", fmt.Sprintf("only %d file-from-path constructions recognised (the root file and the included file on the pinned tree)", n), "")
+	}
+}
+
+// ruleC14RecursionOnlyForCycles: "a file that includes itself ... is reported as a recursion error; including the
+// same file several times without a cycle is allowed". The recursion message may therefore be raised only by the
+// test that found the file on the stack of open files, never by a count, a depth or a size.
+func (c *Ctx) ruleC14RecursionOnlyForCycles() {
+	r := c.R
+	r.Rule("C14-RECURSION-ONLY-FOR-CYCLES", "every use of the message constant jerr.RecursionIsProhibited lies on a path on which a membership test of a map has hit (the comma-ok guard of Stack.Push on the set of open files; for PASTE cycles, which share the message, the in-progress state recorded for the macro name): no depth limit, counter or other circumstance is reported as a recursion", 1)
+	pj := c.P.Pkg("jerr")
+	if pj == nil {
+		r.Undecided("C14-RECURSION-ONLY-FOR-CYCLES", "anchor", "package jerr not found", "")
+		return
+	}
+	k, _ := pj.Types.Scope().Lookup("RecursionIsProhibited").(*types.Const)
+	if k == nil {
+		r.Undecided("C14-RECURSION-ONLY-FOR-CYCLES", "anchor", "jerr.RecursionIsProhibited not found", "")
+		return
+	}
+	n := 0
+	for _, f := range c.libFns() {
+		pk := f.Pkg
+		cf := c.cfgOf(f)
+		// comma-ok variables of lookups in a map field
+		okVars := map[types.Object]bool{}
+		ast.Inspect(f.Decl.Body, func(nd ast.Node) bool {
+			if as, ok := nd.(*ast.AssignStmt); ok && len(as.Lhs) == 2 && len(as.Rhs) == 1 {
+				if b, _, isIdx := indexOn(pk, as.Rhs[0]); isIdx && fieldSel(pk, b) != nil {
+					if id := identOf(as.Lhs[1]); id != nil && id.Name != "_" {
+						okVars[objOf(pk, id)] = true
+					}
+				}
+			}
+			return true
+		})
+		inspectWithStack(f.Decl.Body, func(nd ast.Node, stack []ast.Node) bool {
+			e, ok := nd.(ast.Expr)
+			if !ok || constObj(pk, e) != k {
+				return true
+			}
+			if _, isSel := nd.(*ast.SelectorExpr); !isSel {
+				if _, isId := nd.(*ast.Ident); !isId {
+					return true
+				}
+			}
+			// the statement the constant is used in
+			var stmt ast.Node = nd
+			for i := len(stack) - 1; i >= 0; i-- {
+				if _, isStmt := stack[i].(ast.Stmt); isStmt {
+					stmt = stack[i]
+					break
+				}
+			}
+			n++
+			hit := func(cond ast.Expr, holds bool) bool {
+				if id := identOf(cond); id != nil {
+					return holds && okVars[pk.TypesInfo.Uses[id]]
+				}
+				// m[k] == <state constant>: the element recorded for the name says "in progress" (the macro cycle
+				// check uses the same message for PASTE cycles)
+				if be, ok := ast.Unparen(cond).(*ast.BinaryExpr); ok && be.Op == token.EQL && holds {
+					for _, side := range []ast.Expr{be.X, be.Y} {
+						if _, _, isIdx := indexOn(pk, side); isIdx {
+							return true
+						}
+					}
+				}
+				return false
+			}
+			key := f.Name() + " | RecursionIsProhibited"
+			if cf.establishedAt(stmt, hit, nil) {
+				r.Ok("C14-RECURSION-ONLY-FOR-CYCLES", key, "raised only when the file's name was found in the set of open files", c.pos(nd.Pos()))
+			} else {
+				r.Bad("C14-RECURSION-ONLY-FOR-CYCLES", key, "the recursion error is raised on a path on which no membership test of the set of open files has hit: an include tree without a cycle (deep, wide, or the same file twice) can be refused as a recursion", c.pos(nd.Pos()))
+			}
+			return false
+		})
+	}
+	if n == 0 {
+		r.Undecided("C14-RECURSION-ONLY-FOR-CYCLES", "sites", "the recursion message is not used anywhere: the cycle guard is no longer recognised", "")
+	}
 }
